@@ -93,6 +93,15 @@ pub fn deserialize_eps_slice_zero<'a, T: ZeroCopy>(
     let len = usize::_deserialize_full_inner(backend)?;
     let bytes = len * core::mem::size_of::<T>();
     backend.align::<T>()?;
+    if core::mem::size_of::<T>() == 0 {
+        // Zero-sized elements occupy no bytes, and `align_to` returns an
+        // empty slice for them: build the slice of `len` elements directly.
+        // SAFETY: a dangling (non-null, aligned) pointer is valid for any
+        // number of zero-sized elements.
+        return Ok(unsafe {
+            core::slice::from_raw_parts(core::ptr::NonNull::<T>::dangling().as_ptr(), len)
+        });
+    }
     let (pre, data, after) = unsafe { backend.data[..bytes].align_to::<T>() };
     debug_assert!(pre.is_empty());
     debug_assert!(after.is_empty());
